@@ -311,3 +311,65 @@ def misc_kinds(which: int, lo: int, hi: int, M: int, v: ANY, b1: Union[None, boo
     if which == 1:
         return hx.ok(expect and r is None)
     return hx.ok(expect and r == v)
+
+
+@hx.harness(props=['C08'], targets=['stone.backends.python_rsrc.stone_validators:Map.validate'],
+            bound='Map(String(min_length=m, max_length=M), Int32) with symbolic key bounds; entries under the concrete keys '
+                  '"", k, kk, kkk (each present or absent; symbolic dict keys realise) with symbolic integer values',
+            budget=(120, 300))
+def map_keys(m: Optional[int], M: Optional[int], present: Tuple[bool, bool, bool, bool], v1: int, v2: int) -> bool:
+    """
+    pre: m is None or m >= 0
+    pre: M is None or M >= 1
+    pre: m is None or M is None or m <= M
+    post: _
+    """
+    val = bv.Map(bv.String(min_length=m, max_length=M), bv.Int32())
+    doc = {}
+    for key, here, v in zip(('', 'k', 'kk', 'kkk'), present, (v1, v2, v1, v2)):
+        if here:
+            doc[key] = v
+
+    def key_ok(k):
+        return (m is None or len(k) >= m) and (M is None or len(k) <= M)
+    expect = all(key_ok(k) for k in doc) and all(-2**31 <= x <= 2**31 - 1 for x in doc.values())
+    try:
+        r = val.validate(doc)
+    except bv.ValidationError:
+        return hx.ok(not expect)
+    return hx.ok(expect and r == doc)
+
+
+import datetime as _dt
+
+
+def _tz(minutes):
+    return _dt.timezone(_dt.timedelta(minutes=minutes))
+
+
+TS_VALUES = [
+    _dt.datetime(2015, 5, 12, 15, 50, 38), _dt.datetime(2015, 5, 12, 15, 50, 38, 250000),
+    _dt.datetime(2015, 5, 12, 15, 50, 38, tzinfo=_dt.timezone.utc), _dt.datetime(2015, 5, 12, 15, 50, 38, tzinfo=_tz(0)),
+    _dt.datetime(2015, 5, 12, 15, 50, 38, tzinfo=_tz(1)), _dt.datetime(2015, 5, 12, 15, 50, 38, tzinfo=_tz(330)),
+    _dt.datetime(2015, 5, 12, 15, 50, 38, tzinfo=_tz(-480)), _dt.datetime(2015, 5, 12, 15, 50, 38, tzinfo=_tz(840)),
+    _dt.date(2015, 5, 12), '2015-05-12T15:50:38Z', 1431445838, None, True,
+]
+
+
+@hx.harness(props=['C08'], targets=['stone.backends.python_rsrc.stone_validators:Timestamp.validate'],
+            bound='Timestamp validator on a finite list of values (datetime is C code): naive, with and without microseconds, '
+                  'UTC, zero offset, offsets +1 min / +5:30 / -8:00 / +14:00, a date, a string, an int, None, a bool '
+                  '(finite; the solver enumerates the index)', budget=(60, 120))
+def timestamp_values(k: int) -> bool:
+    """
+    pre: 0 <= k < len(TS_VALUES)
+    post: _
+    """
+    v = TS_VALUES[int(k)]
+    val = bv.Timestamp('%Y-%m-%dT%H:%M:%SZ')
+    expect = isinstance(v, _dt.datetime) and (v.tzinfo is None or v.utcoffset() == _dt.timedelta(0))
+    try:
+        r = val.validate(v)
+    except bv.ValidationError:
+        return hx.ok(not expect)
+    return hx.ok(expect and r == v and r.microsecond == v.microsecond)
